@@ -8,6 +8,10 @@ Case kinds (first element):
                                call delMatch / addMatch themselves
   ['client', events]           the same (passive callbacks) through a real DBusClientConnection on a fake
                                transport: AddMatch / RemoveMatch texts, signals delivered as bytes
+  ['shist', how, events]       add / del / route history (passive callbacks) on a real MessageRouter in which callbacks
+  ['sclient', how, events]     with the same tag are ONE receiver registered under several rules (how: 0 the same function
+                               object, 1 equal bound methods of one object, 2 one callable object); the same through a
+                               real DBusClientConnection.  Judged per receiver: calls == number of its satisfied rules
   ['cdaemon', events]          the same against the reference daemon (a multiset of rule texts that answers
                                AddMatch / RemoveMatch and forwards a broadcast signal iff a held rule is satisfied)
   ['async', declared, events]  client and proxy calls with the daemon answering LATER: events as above plus
@@ -48,6 +52,11 @@ ASSUMPTIONS = [
     'called after its removal; rules added during the route may or may not see this signal (not compared with '
     'the specification, only with the model)',
     'the order in which matching callbacks are called is not compared (multiset per route)',
+    'shist / sclient cases: one receiver (the same function object, equal bound methods of one object, or one callable '
+    'object) is registered under several rules; it cannot see through which rule a call came, so what is compared is '
+    'the number of calls per receiver and route: it must equal the number of currently registered rules of that receiver '
+    'which the message satisfies (Spec.MatchSpec verdict per rule: "exactly once per matching rule"); a receiver raises '
+    'always or never; with the model the multiset of tags called is compared',
     'AddMatch / RemoveMatch replies are delivered by the harness immediately and successfully (the Deferred '
     'plumbing of callRemote is property C08); an unknown message type name makes router.addMatch raise after '
     'the bus accepted the text, which shows as a failed Deferred',
@@ -439,6 +448,7 @@ class HistRun:
         self.router = I.router.MessageRouter()
         self.log = None            # during a route: ('call', id, tag) | ('del', id) | ('add', id, rule)
         self.registered = {}       # id -> rule, from the implementation's own answers
+        self.tag_of = {}           # id -> tag of the callback it was registered with
         self.flip = False
 
     def make_cb(self, tag, raises, acts, box):
@@ -470,6 +480,7 @@ class HistRun:
             except (Exception, CbOdd) as x:
                 return [0, [0, exc_code(x)]], None
             self.registered[box[0]] = e[1]
+            self.tag_of[box[0]] = e[2][0]
             return [0, [1, box[0]]], None
         if e[0] == 1:
             try:
@@ -499,22 +510,26 @@ class ClientRun:
         self.p = I.connect()
         self.log = None
         self.registered = {}
+        self.tag_of = {}
         self.texts = []            # (rule, AddMatch text)
         self.remove_texts = []     # (id, RemoveMatch text, AddMatch text it was registered with)
         self.text_of = {}
         self.flip = False
+
+    def make_cb(self, tag, raises, box):
+        def cb(m):
+            self.log.append(('call', box[0], tag))
+            if raises:
+                RAISED[0] += 1
+                cb_raise(tag)
+        return cb
 
     def step(self, e):
         p, I = self.p, self.I
         if e[0] == 0:
             tag, raises = e[2][0], e[2][1]
             box = [None]
-
-            def cb(m):
-                self.log.append(('call', box[0], tag))
-                if raises:
-                    RAISED[0] += 1
-                    cb_raise(tag)
+            cb = self.make_cb(tag, raises, box)
             self.flip = not self.flip
             nout = len(p.transport.out)
             d = p.addMatch(cb, **Impl.client_kwargs(e[1], self.flip))
@@ -536,6 +551,7 @@ class ClientRun:
             if got[0][0] == 1:
                 box[0] = got[0][1]
                 self.registered[box[0]] = e[1]
+                self.tag_of[box[0]] = tag
                 self.text_of[box[0]] = c.body[0]
             return [0, got[0]], None
         if e[0] == 1:
@@ -568,6 +584,91 @@ class ClientRun:
         log, self.log = self.log, None
         called = sorted([i, t] for k, i, t in log)
         return [2, called, esc], (log, start, esc)
+
+
+class SharedCallable(object):
+    """ONE receiver that may be registered under any number of rules.  `how` says which callable is handed to addMatch
+    at each registration: 0 the same function object, 1 a bound method of the same object (a fresh bound-method object
+    each time: equal, not identical), 2 the object itself (it has __call__).  The receiver cannot tell which rule a
+    call came through: it records its tag only."""
+
+    def __init__(self, run, tag, raises):
+        self.run, self.tag, self.raises = run, tag, raises
+
+        def fn(m):
+            self.receive(m)
+        self.fn = fn
+
+    def receive(self, m):
+        self.run.log.append(('call', None, self.tag))
+        if self.raises:
+            RAISED[0] += 1
+            cb_raise(self.tag)
+
+    __call__ = receive
+
+    def handle(self, how):
+        return self.fn if how == 0 else self.receive if how == 1 else self
+
+
+class SharedMixin(object):
+    """callbacks carrying the same tag (and the same raising behaviour) are the SAME receiver"""
+
+    def init_shared(self, how):
+        self.how = how
+        self.receivers = {}
+
+    def shared_cb(self, tag, raises):
+        k = (tag, bool(raises))
+        if k not in self.receivers:
+            self.receivers[k] = SharedCallable(self, tag, bool(raises))
+        return self.receivers[k].handle(self.how)
+
+
+class SharedHistRun(SharedMixin, HistRun):
+    def __init__(self, I, how):
+        HistRun.__init__(self, I)
+        self.init_shared(how)
+
+    def make_cb(self, tag, raises, acts, box):
+        return self.shared_cb(tag, raises)
+
+
+class SharedClientRun(SharedMixin, ClientRun):
+    def __init__(self, I, how):
+        ClientRun.__init__(self, I)
+        self.init_shared(how)
+
+    def make_cb(self, tag, raises, box):
+        return self.shared_cb(tag, raises)
+
+
+def shared_route_oracle(log, start, tag_of, esc, msg, verdict):
+    """one receiver under several rules: it cannot see through which rule a call came, so the count per receiver is
+    judged: a receiver is called exactly as many times as it has registered rules the message satisfies ("exactly
+    once per matching rule").  -> list of (why, signature)"""
+    out = []
+    if esc != [1]:
+        out.append(('routeMessage let an exception escape (%r)' % (esc,), 'route:exception-escaped'))
+    got, exp, ids = {}, {}, {}
+    for x in log:
+        got[x[2]] = got.get(x[2], 0) + 1
+    for i, r in sorted(start.items()):
+        if verdict(r, msg)[0]:
+            t = tag_of.get(i)
+            exp[t] = exp.get(t, 0) + 1
+            ids.setdefault(t, []).append(i)
+    for t in sorted(set(list(got) + list(exp)), key=repr):
+        g, x = got.get(t, 0), exp.get(t, 0)
+        if g < x and esc == [1]:
+            out.append(('the receiver with tag %r is registered under %d rules the message satisfies (ids %r) but was '
+                        'called %d time(s): not once per matching rule' % (t, x, ids.get(t), g),
+                        'route:shared-receiver-fewer-calls-than-matching-rules'))
+        elif g > x:
+            out.append(('the receiver with tag %r is registered under %d rule(s) the message satisfies (ids %r) but '
+                        'was called %d times' % (t, x, ids.get(t, []), g),
+                        'route:shared-receiver-more-calls-than-matching-rules'))
+    return out
 
 
 class DaemonRun:
@@ -1004,6 +1105,13 @@ def evaluate(ctx, cases, res):
             for r in rules:
                 for m in msgs:
                     want(r, m)
+        elif kind in ('shist', 'sclient'):
+            if any(e[0] == 0 and e[2][2] for e in c[2]):
+                raise RuntimeError('shared-receiver histories have passive callbacks')
+            lines.append('(12 0 (%s))' % ' '.join(dump_event(e) for e in c[2]))
+            for r in [e[1] for e in c[2] if e[0] == 0]:
+                for m in [e[1] for e in c[2] if e[0] == 2]:
+                    want(r, m)
         elif kind == 'async':
             lines.append('(12 6 %s %s (%s))' % (O(c[1]), dump_rule(PRULE), ' '.join(dump_aevent(e) for e in c[2])))
             rules = [e[1] for e in c[2] if e[0] == 0] + [PRULE]
@@ -1130,6 +1238,39 @@ def evaluate(ctx, cases, res):
                                     'text:remove-differs-from-add')
                 for rule, text in run.texts:
                     late.append((c, None, 'TEXT', rule, text))
+        elif kind in ('shist', 'sclient'):
+            how, events = c[1], c[2]
+            run = SharedClientRun(I, how) if kind == 'sclient' else SharedHistRun(I, how)
+            nontrivial = False
+            for n, (e, mo) in enumerate(zip(events, o)):
+                ob, extra = run.step(e)
+                model_ob = dec_obs(mo[leg])
+                if e[0] == 2:
+                    log, start, esc = extra
+                    ob = [2, sorted(x[2] for x in log), esc]
+                    model_ob = [2, sorted(t for _, t in model_ob[1]), model_ob[2]]
+                    dist['routes'] += 1
+                    dist['callbacks_called'] += len(ob[1])
+                    exp = {}
+                    for i, r in start.items():
+                        if verdict(r, e[1])[0]:
+                            exp[run.tag_of.get(i)] = exp.get(run.tag_of.get(i), 0) + 1
+                    if any(k > 1 for k in exp.values()):
+                        nontrivial = True
+                        dist['routes_one_receiver_several_matching_rules'] = \
+                            dist.get('routes_one_receiver_several_matching_rules', 0) + 1
+                    for why, sig in shared_route_oracle(log, start, run.tag_of, esc, e[1], verdict):
+                        violate(c, 'event %d: %s' % (n, why), sig)
+                if ob != model_ob:
+                    res.disagree(c, ['event', n, ob], ['event', n, model_ob])
+                    break
+            res.count(c, nontrivial=nontrivial)
+            res.traces += 1
+            if kind == 'sclient':
+                for i, t, t0 in run.remove_texts:
+                    if t != t0:
+                        violate(c, 'RemoveMatch for rule %r sent %r, AddMatch had sent %r' % (i, t, t0),
+                                'text:remove-differs-from-add')
         elif kind == 'async':
             declared, events = c[1], c[2]
             by_text, acc = {}, {}
@@ -1648,6 +1789,76 @@ def gen_hist_cases(ctx):
         yield ['client', gen_history(rng, False, real_only=True, maxlen=10)]
 
 
+def gen_shared_cases(ctx):
+    """ONE receiver registered under SEVERAL rules (the same function object, equal bound methods of one object, or
+    one callable object), signals satisfying none, one or several of the rules of a receiver, rules removed one by
+    one; on a MessageRouter and through a DBusClientConnection"""
+    rng = ctx.rng
+    m = ['real', 4, '/a/b', 'org.ex.I', 'M', None, None, None, [['s', 'x']]]
+    m2 = ['real', 4, '/a/bc', 'org.ex.I', 'N', None, None, None, [['s', 'x']]]
+    r_mem = ['signal', None, 'org.ex.I', 'M', None, None, None, [], [], None]           # m only
+    r_ns = ['signal', None, None, None, None, '/a', None, [[0, 'x']], [], None]           # m and m2
+    r_no = ['signal', None, None, None, '/a/b/c', None, None, [], [], None]               # neither
+    # exhaustive: receiver 0 under up to three rules, receiver 1 (raising) under one; every history of length <= 3
+    alphabet = [[0, r_mem, 0], [0, r_ns, 0], [0, r_no, 0], [0, r_ns, 1], [1, 0], [1, 1], [2, m], [2, m2]]
+    for how in (0, 1, 2):
+        for n in range(1, 4):
+            for t in itertools.product(range(len(alphabet)), repeat=n):
+                if sum(1 for x in t if x < 3) < 1 or (n > 1 and not any(x < 4 for x in t[:2])):
+                    continue
+                ev = []
+                for x in t:
+                    e = list(alphabet[x])
+                    if e[0] == 0:
+                        e[2] = [e[2], e[2] == 1, []]
+                    ev.append(e)
+                ev += [[2, m], [2, m2]]
+                yield ['shist', how, ev]
+    # the same receiver under the same rule twice and under an overlapping one, rules removed one by one
+    for how in (0, 1, 2):
+        for kind in ('shist', 'sclient'):
+            for order in itertools.permutations(range(3)):
+                ev = [[0, r_mem, [0, False, []]], [0, r_ns, [0, False, []]], [0, r_mem, [0, False, []]],
+                      [0, r_ns, [1, False, []]], [2, m], [2, m2]]
+                for i in order:
+                    ev += [[1, i], [2, m], [2, m2]]
+                yield [kind, how, ev]
+
+    def history(real_only, maxlen):
+        msgs = []
+        while len(msgs) < rng.choice([1, 2, 2]):
+            x = gen_msg(rng)
+            if real_only and not (x[0] == 'real' and x[1] == 4):
+                continue
+            msgs.append(x)
+        rules = []
+        for _ in range(rng.choice([2, 3, 4])):
+            x = rng.choice(msgs)
+            q = rng.random()
+            rules.append(matching_rule(rng, x, 0.3) if q < 0.7 else near_miss(rng, matching_rule(rng, x, 0.3), x)
+                         if q < 0.9 else random_rule(rng))
+        ntags = rng.choice([1, 2, 2, 3])
+        raising = [rng.random() < 0.25 for _ in range(ntags)]      # a receiver raises always or never
+        ev = []
+        nids = 0
+        for _ in range(rng.randrange(3, maxlen + 1)):
+            q = rng.random()
+            if q < 0.5 or nids < 2 and q < 0.85:
+                t = rng.randrange(ntags)
+                ev.append([0, rng.choice(rules), [t, raising[t], []]])
+                nids += 1
+            elif q < 0.62:
+                ev.append([1, rng.randrange(0, nids + 2)])
+            else:
+                ev.append([2, rng.choice(msgs)])
+        ev.append([2, rng.choice(msgs)])
+        return ev
+    for _ in range(ctx.n(500, 6000)):
+        yield ['shist', rng.randrange(3), history(False, 12)]
+    for _ in range(ctx.n(120, 2000)):
+        yield ['sclient', rng.randrange(3), history(True, 10)]
+
+
 def gen_cdaemon_cases(ctx):
     """client histories against the reference daemon: few rules, so that the SAME rule text is registered several
     times and some of the instances removed; broadcast signals"""
@@ -1833,7 +2044,12 @@ def run(ctx, res):
                 'independent (15%%); (b) histories on a real MessageRouter: every history of length <= %d over '
                 '{add satisfied rule, add unsatisfied rule with raising callback, del 0, del 1, route}, 36 '
                 're-entrant three-rule scenarios, random histories of 3..15 events (35%% with callbacks that call '
-                'delMatch / addMatch), the same through a real DBusClientConnection; (b2) client histories against the reference '
+                'delMatch / addMatch), the same through a real DBusClientConnection; (b1) ONE receiver registered under SEVERAL rules '
+                '(the same function object / equal bound methods / one callable object): every history of length <= 3 over {add '
+                'member rule, add namespace rule, add unsatisfied rule - all for receiver 0 -, add namespace rule for raising receiver 1, '
+                'del 0, del 1, signal satisfying both, signal satisfying one} followed by both signals, the four-rule scenario with the rules '
+                'removed in every order on the router and through a DBusClientConnection, random histories with 1-3 receivers over 2-4 mostly '
+                'satisfied rules on both layers; (b2) client histories against the reference '
                 'daemon (multiset of rule texts): every history of length <= %d over {add A, add B, del 0, del 1, del 2, '
                 'signal A, signal B} containing an add (the same text registered repeatedly, instances removed), the same with '
                 'the catch-all rule (no constraint, text \'\') in place of B, and random '
@@ -1846,6 +2062,7 @@ def run(ctx, res):
                 'route with a registered rule / non-empty text; distinct by hash' % (ctx.n(4, 5), ctx.n(4, 5), ctx.n(4, 5)))
     evaluate(ctx, gen_pairs(ctx), res)
     evaluate(ctx, gen_hist_cases(ctx), res)
+    evaluate(ctx, gen_shared_cases(ctx), res)
     evaluate(ctx, gen_cdaemon_cases(ctx), res)
     evaluate(ctx, gen_async_cases(ctx), res)
     evaluate(ctx, gen_text_cases(ctx), res)
